@@ -716,18 +716,25 @@ pub fn c17_case(dir: &Path, c: &C17Case) -> Result<String, V> {
             if wait_bg_gone(Duration::from_secs(2)).is_none() {
                 return Err(("worker-thread-does-not-exit".into(), format!("cycle {}: background thread alive 2 s after the drop", i)));
             }
-            std::thread::sleep(Duration::from_millis(2));
-            let now = (thread_count(), fd_count());
+            // a thread that has just been spawned carries its name only a moment later, and threads /
+            // descriptors are released a moment after the named thread is gone: give the counts up
+            // to 2 s to come down to the level they had before the first cycle
+            let t0 = Instant::now();
+            let mut now = (thread_count(), fd_count());
+            let target = base.unwrap_or((threads0, usize::MAX));
+            while (now.0 > target.0 || now.1 > target.1 || bg_threads_alive() > 0) && t0.elapsed() < Duration::from_secs(2) {
+                std::thread::sleep(Duration::from_millis(1));
+                now = (thread_count(), fd_count());
+            }
             match base {
                 None => base = Some(now),
                 Some(b0) => {
                     if now.0 > b0.0 || now.1 > b0.1 {
-                        return Err(("threads-or-descriptors-accumulate".into(), format!("after cycle {}: {} threads / {} fds, after the first cycle {} / {}", i, now.0, now.1, b0.0, b0.1)));
+                        return Err(("threads-or-descriptors-accumulate".into(), format!("after cycle {}: {} threads / {} fds (2 s after the drop), after the first cycle {} / {}", i, now.0, now.1, b0.0, b0.1)));
                     }
                 }
             }
         }
-        let _ = threads0;
     }
     Ok(o)
 }
